@@ -185,13 +185,9 @@ impl NewerTimeMatcher {
             .duration_since(UNIX_EPOCH)
             .unwrap_or_else(|e| e.duration());
 
-        // timestamp.as_millis() return u128 but time is i64
-        // This may leave memory implications. :(
-        Ok(self.time
-            <= timestamp
-                .as_millis()
-                .try_into()
-                .expect("timestamp memory implications"))
+        // timestamp.as_millis() returns u128 but time is i64: a timestamp too far
+        // in the future to be represented is later than any given time.
+        Ok(self.time <= i64::try_from(timestamp.as_millis()).unwrap_or(i64::MAX))
     }
 }
 
